@@ -81,10 +81,10 @@ def run(ctx):
     # chains of nested heads (a lock is transferred twice, waiters two levels down the transfer
     # tree); besides PCT depth 3 / random these are explored with PCT depth 50 — the defects
     # found there need many priority changes (checks/notes/C19-circular-blocked-edges.txt)
-    hard, semantic = pe.generate_hard(ctx.seed, 24 if quick else 120, size, prefix="q")
+    hard, semantic = pe.generate_hard(ctx.seed, 24 if quick else 60, size, prefix="q")
     cases += hard
     plan = {"pct": cases, "random": cases, "pct50": hard}
-    iters_of = {"pct": iters, "random": iters, "pct50": 2000 if quick else 4000}
+    iters_of = {"pct": iters, "random": iters, "pct50": 1500 if quick else 3000}
     scheds = ["pct", "random", "pct50"]
     spec = pe.specification18(cases, cycle_driver)
     # (the value-conditioned deep_cond programs are monotone by construction — then-branch = else-branch plus
@@ -92,7 +92,7 @@ def run(ctx):
     notmono = [cid for cid, s in spec.items() if s["mono"] is False and cid not in semantic]
     if notmono:
         raise common.CheckError(f"generated fixpoint program outside the class mono_table (C12_profile_programs_monotone): {notmono[:3]}")
-    out_root = os.path.join(common.BUILD, "par-traces", f"C18-{ctx.seed}")
+    out_root = os.path.join(common.BUILD, "par-traces", f"C18-{ctx.seed}-{os.getpid()}")
     shutil.rmtree(out_root, ignore_errors=True)
     os.makedirs(out_root)
     res, tdirs = parcheck.explore18(ctx, plan, harness, scheds, iters_of, out_root, trace_cap=3 if quick else 4)
